@@ -23,6 +23,17 @@ impl<K, V> HashMap<K, V> {
         HashMap(Inner::with_capacity_and_hasher(n, Fixed::default()))
     }
 }
+impl<K, V> HashMap<K, V> {
+    pub fn into_values(self) -> std::collections::hash_map::IntoValues<K, V> {
+        self.0.into_values()
+    }
+    pub fn into_keys(self) -> std::collections::hash_map::IntoKeys<K, V> {
+        self.0.into_keys()
+    }
+    pub fn into_std(self) -> Inner<K, V> {
+        self.0
+    }
+}
 impl<K, V> Default for HashMap<K, V> {
     fn default() -> Self {
         Self::new()
